@@ -11,7 +11,8 @@ EXPLANATION = (
     "(d) timeout ordering in the run loop and deadline guard on rescheduling (F5 on the deadline lookup); "
     "(e) cleanup covers both search maps and the rerun queue; (f) cache-only browse never queries.  Decides these structural clauses, not event order over "
     "histories."
-    " (h) EVERY path that ends a search on its own (stop handler, resolver timeout) purges the pending reruns inside the same per-search iteration; (i) stop forgets cached addresses under the lower-cased key.")
+    " (h) EVERY path that ends a search on its own (stop handler, resolver timeout) purges the pending reruns inside the same per-search iteration; (i) stop forgets cached addresses under the lower-cased key."
+    " (j) Every send on a ServiceEvent channel is the lossless Sender::send (a dropped ServiceFound would let ServiceResolved arrive first). (k) A follow-up Resolve asks only after a test on service_queriers, or stop purges it. (l) Cache-only browsers are recorded in a Zeroconf set at the browse handler, and every query sent inside a loop over service_queriers, and the follow-up Resolve, is guarded by that set. The keys of hostname_resolvers are folded by one function only (to_lowercase xor to_ascii_lowercase).")
 UNDECIDED = ["order of events across packets/histories", "absence of queries 'long after the stop' as a trace property",
              "other callers of send_query* taking a cache-only listener (value-level)"]
 
@@ -356,6 +357,8 @@ def clause_stop_forgets_addresses(ctx, P):
 def run(ctx, P):
     from . import r2
     r2.events_are_lossless(ctx, P, "C13j")
+    r2.followup_needs_open_browse(ctx, P, "C13k")
+    clause_cache_only_everywhere(ctx, P)
     clause_stop_forgets_addresses(ctx, P)
     clause_stop_paths(ctx, P)
     clause_a(ctx, P)
@@ -365,3 +368,77 @@ def run(ctx, P):
     clause_e(ctx, P)
     clause_f(ctx, P)
     # clause (g) 're-browse replaces' is stated by C19 and checked there (stop purges every chain of the type)
+
+
+def cache_only_marker(P):
+    """the Zeroconf collection that exec_command_browse fills exactly when its cache_only parameter is true (None if there
+    is no such thing)"""
+    fn = P.one("Zeroconf::exec_command_browse")
+    rf = rerun_flag_param(P, fn)
+    idx = param_index(fn, "cache_only", "bool", exclude=(rf,) if rf else ())
+    tr = tracer(P, fn)
+    marker = None
+    if idx is not None:
+        e_true = guard_edges(P, fn, lambda atom, outcome, bb: atom == ("param", idx) and outcome is True)
+        for b, t in fn.calls():
+            if name_matches(cname(t), "HashSet::insert", "HashMap::insert", "BTreeSet::insert") and must_pass_edges(fn, b, e_true):
+                for a in strip(tr.operand(t["args"][0], endpos(fn, b))):
+                    if a[0] == "field" and (a[3] or "").endswith("Zeroconf"):
+                        marker = a[2]
+    return marker
+
+
+def clause_cache_only_everywhere(ctx, P, pre="C13l"):
+    """`a cache-only browse never sends a query` outside the browse handler: a cache-only browser is an ordinary entry of
+    service_queriers, so every place that sends queries *for the entries of service_queriers* (refresh, new interface,
+    follow-up Resolve) has to leave the cache-only ones out.  The marker is the Zeroconf set that exec_command_browse
+    fills under `cache_only == true`."""
+    fn = P.one("Zeroconf::exec_command_browse")
+    marker = cache_only_marker(P)
+    ctx.ob(pre + ".cache-only-marked", fn.name, marker is not None, fn.loc(),
+           "a cache-only browse is recorded in Zeroconf.%s" % marker if marker else
+           "nothing records that a browse is cache-only: refresh, new-interface and follow-up queries treat it like any other entry of "
+           "service_queriers and send queries for it")
+    if marker is None:
+        return
+    QUERY = ("Zeroconf::send_query", "Zeroconf::send_query_vec", "Zeroconf::send_query_on_intf")
+    n = 0
+    for f in P.lib_fns():
+        if f.in_tests() or f.name == fn.name or f.is_closure:
+            continue
+        loops = f.loops()
+        ftr = None
+        k = 0
+        for b, t in f.calls():
+            if not name_matches(cname(t), *QUERY):
+                continue
+            # inside a loop that ranges over service_queriers?
+            hit = None
+            for h, body in loops.items():
+                if b not in body:
+                    continue
+                ftr = ftr or tracer(P, f)
+                for hb in body:
+                    tt = f.term(hb)
+                    if tt["k"] == "call" and method(cname(tt)) == "next" and expr_mentions_field(ftr.operand(tt["args"][0], endpos(f, hb)), "service_queriers", "Zeroconf"):
+                        hit = h
+            if hit is None:
+                continue
+            n += 1
+            k += 1
+            skip = guard_edges(P, f, lambda atom, outcome, bb: atom[0] == "call" and method(strip_generics(atom[1])) == "contains" and
+                               expr_mentions_field(atom, marker, "Zeroconf") and outcome is False)
+            ok = bool(skip) and must_pass_edges(f, b, skip)
+            ctx.ob(pre + ".cache-only-no-query", "%s|query#%d" % (f.name, k), ok, f.loc(b),
+                   "the query for an entry of service_queriers is sent only when %s does not contain it" % marker if ok else
+                   "a query is sent for every entry of service_queriers, cache-only browsers included")
+    ctx.floor(pre + ".cache-only-no-query", n, 4, "queries sent inside loops over service_queriers")
+    # the follow-up Resolve
+    g = P.one("Zeroconf::exec_command_resolve")
+    q = calls_to(g, "Zeroconf::query_unresolved")
+    if q:
+        edges = guard_edges(P, g, lambda atom, outcome, bb: expr_or_closure_mentions_field(P, atom, marker, "Zeroconf"))
+        ok = bool(edges) and must_pass_edges(g, q[0][0], edges)
+        ctx.ob(pre + ".cache-only-no-query", g.name + "|follow-up", ok, g.loc(q[0][0]),
+               "the follow-up question is asked only after a test that involves %s" % marker if ok else
+               "the follow-up questions of an unresolved instance are sent for a cache-only browse too")
